@@ -105,7 +105,9 @@ def scenarios(draw, kinds=None, max_callers=4, limits=(1, 1, 2, 2, 3)):
           "segs": draw(st.lists(st.sampled_from([0, 0, 1, 2, 7, 50, 1000]), max_size=5)),
           "dsegs": draw(st.lists(st.sampled_from([0, 0, 0, 1, 20, 60, 300, 5000]), max_size=4)),
           "faults": [], "cancel": None, "server_closes": draw(st.sampled_from([0, 0, 0, 1, 2])),
-          "runtime": draw(st.sampled_from(["asyncio", "asyncio", "trio"]))}
+          "runtime": draw(st.sampled_from(["asyncio", "asyncio", "trio"])),
+          "late": draw(st.sampled_from([[], [], [], [1], [0, 1], [0, 0, 0, 1]])),
+          "bursts": draw(st.sampled_from([[], [], [], [1], [0, 1], [2, 0, 1], [0, 0, 3, 1]]))}
     if h2 and draw(st.integers(0, 2)) == 0:
         # scripted HTTP/2 peer actions (truthful GOAWAYs, resets, PING, raising the stream limit)
         script = []
@@ -292,7 +294,8 @@ def run_scenario(sc):
     from ..trio_run import make_run
 
     run = make_run(sc.get("runtime"))(world, pool_cfg, callers, choices=sc["choices"], segs=sc["segs"], dsegs=sc.get("dsegs", ()),
-                                      allow_server_close=sc.get("server_closes", 0), on_quiescence=on_q, epilogue=epilogue, step_limit=6000)
+                                      allow_server_close=sc.get("server_closes", 0), on_quiescence=on_q, epilogue=epilogue, step_limit=6000,
+                                      late=sc.get("late", ()), bursts=sc.get("bursts", ()))
     holder["run"] = run
     world.on_op = lambda op: mon.check(f"after op {op['seq']} ({op['kind']} on pipe {op['pipe']})")
     run.final_repr = None
@@ -302,7 +305,7 @@ def run_scenario(sc):
 
 def judge(sc, run, world, callers, mon, lost, q_stats):
     """-> dict property -> violations, plus tags / non-trivial flags."""
-    v1, v4, v7 = [], [], []
+    v1, v4, v7, v12 = [], [], [], []
     kind = sc["kind"]
     fam = kind
     base = dict(conn=fam)
@@ -330,6 +333,17 @@ def judge(sc, run, world, callers, mon, lost, q_stats):
             elif out["body"] != exp:
                 v1.append(V("C01", "wrong-body", f"caller {c.id} {tok}: body of {len(out['body'])} bytes differs from the {len(exp)} bytes the server "
                             f"sent for it (starts {out['body'][:30]!r}, expected {exp[:30]!r})", **base))
+    # an undisturbed run (no fault, no cancellation, no peer action, no server-side close): every request must succeed or time out in the pool
+    undisturbed = not sc.get("faults") and not sc.get("cancel") and not sc.get("h2_script") and not sc.get("server_closes")
+    if undisturbed:
+        for c in callers:
+            for i, out in enumerate(c.results):
+                if out["exc"] is not None and out["exc"]["name"] != "PoolTimeout":
+                    pid = "C12" if is_h2(kind) else "C01"
+                    (v12 if pid == "C12" else v1).append(V(pid, "request-failed-undisturbed", f"{kind} max_connections={sc['max_connections']} keepalive={sc.get('max_keepalive')}: "
+                                                           f"caller {c.id} request {c.program[i]['tok']} raised {out['exc']['type']}: {out['exc']['msg'][:160]} (in {out['exc'].get('inner')}) "
+                                                           "although the server answers every request and nothing was injected: it failed because of what other requests did",
+                                                           exc=out["exc"]["name"], site=out["exc"].get("inner"), **base))
     reuse_after_disruption = False
     multiplexed = False
     for p in world.pipes:
@@ -394,11 +408,11 @@ def judge(sc, run, world, callers, mon, lost, q_stats):
         tags.append("connection-left-pool")
     nt = {"C01": (reuse_after_disruption and (early or disrupted)) or multiplexed,
           "C04": q_stats["waited"] and (evictions > 0 or disrupted),
-          "C07": q_stats["waited"]}
+          "C07": q_stats["waited"], "C12": multiplexed and evictions > 0}
     info = {"steps": run.steps, "pipes": len(world.pipes), "max_conns_seen": mon.max_conns, "max_open_streams_seen": mon.max_pipes,
             "final": run.final_repr, "outcomes": [[(o.get("status") or o["exc"]["name"]) for o in c.results] + (["cancelled"] if c.cancelled else [])
                                                   for c in callers]}
-    return {"C01": v1, "C04": v4, "C07": v7}, tags, nt, info
+    return {"C01": v1, "C04": v4, "C07": v7, "C12": v12}, tags, nt, info
 
 
 def poisoned_by_known(sc, run, callers):
